@@ -3,6 +3,7 @@ package blockstore
 import (
 	"context"
 	"fmt"
+	"io"
 	"os"
 
 	blocks "github.com/ipfs/go-block-format"
@@ -227,6 +228,9 @@ func (b *ReadWrite) PutMany(ctx context.Context, blks []blocks.Block) error {
 
 		n := uint64(b.dataWriter.Position())
 		if err := util.LdWrite(b.dataWriter, c.Bytes(), bl.RawData()); err != nil {
+			// Do not stay behind a partially written section: the next section must start
+			// where this one did, or every later block would follow garbage.
+			_, _ = b.dataWriter.Seek(int64(n), io.SeekStart)
 			return err
 		}
 		b.idx.InsertNoReplace(c, n)
